@@ -265,6 +265,22 @@ def roles_run(ctx):
                                        "replay": {"correspondence": "driver defuse line"}, "no_input": True})
                 ok_ = f"opt.guarded={kv.get('g')}.privOk={kv.get('p')}.operandsGuarded={kv.get('a')}.noTableOutputsUsed={kv.get('t')}.fuseKeeps={kv.get('f')}.cert={kv.get('c')}"
                 defuse[ok_] = defuse.get(ok_, 0) + 1
+                # P3R.C09R.ReachablePrim.guarded / .privOk (total): r=1 (every id argument of every builder call was an id the
+                # builder had handed out; the command vocabulary of the program text is the ReachablePrim API) => g=1, p=1, a=1,
+                # and then c=1 (P3R.C09R.compile_defuse_reachable)
+                rk = f"reach.prim={kv.get('r')}.guarded={kv.get('g')}.privOk={kv.get('p')}.operandsGuarded={kv.get('a')}.cert={kv.get('c')}"
+                defuse[rk] = defuse.get(rk, 0) + 1
+                if kv.get("r") == "1" and any(kv.get(x) == "0" for x in ("g", "p", "a", "c", "t")):
+                    violations.append({"class": "model-disagreement",
+                                       "what": "program is ReachablePrim (r=1) but a builder-side guard or the certificate fails "
+                                               f"(g={kv.get('g')} p={kv.get('p')} a={kv.get('a')} c={kv.get('c')} t={kv.get('t')}; contradicts "
+                                               "P3R.C09R.ReachablePrim.guarded / compile_defuse_reachable / noTableOutputsUsed)",
+                                       "replay": {"correspondence": "driver defuse line"}, "no_input": True})
+                if cur_ok and kv.get("r") == "1" and not (cur_net is not None and all(x == "0" for x in cur_net)):
+                    violations.append({"class": "model-disagreement",
+                                       "what": "program is ReachablePrim (r=1), prep ok, but the model's net multiplicities are not all zero "
+                                               "(contradicts P3R.C09R.compiled_bus_balanced_reachable)",
+                                       "replay": {"correspondence": "driver defuse line vs net line"}, "no_input": True})
                 if cur_ok:
                     balanced = cur_net is not None and all(x == "0" for x in cur_net)
                     key = f"prep-ok.cert={kv.get('c')}.balanced={int(balanced)}"
@@ -312,7 +328,11 @@ def roles_run(ctx):
                 "a / t = operandsGuarded / noTableOutputsUsed of the builder state, f = fuseKeeps (certificate of the de-duplicated list => of the fused list): "
                 "P3R.C09O.lower_dedup_defuse is total (g=1,p=1,a=1 => d=1 is cross-checked); the fusion step f is a theorem too "
                 "(P3R.C09F.fuseKeeps_total; g=1,p=1,a=1 => f=1 and c=1 are cross-checked): P3R.C09F.compiled_bus_balanced has no per-program "
-                "hypothesis (opt.* counts: the programs on which it applies)"}
+                "hypothesis (opt.* counts: the programs on which it applies); r = the program text is a P3R.C09R.ReachablePrim derivation "
+                "(its commands are exactly the ReachablePrim constructors; r=1 iff every id argument was an id handed out for a value, "
+                "Model/DefUse.properId = C02T.proper): P3R.C09R.ReachablePrim.guarded / privOk / compiled_bus_balanced_reachable say r=1 => "
+                "g=1, p=1, a=1, t=1, c=1 and a balanced bus with NO other hypothesis (reach.* counts; cross-checked, and the same programs' real "
+                "columns are compared cell by cell above)"}
     for k in ("busaudit_class_counts", "busaudit_samples", "busaudit_proved", "busaudit_prove_notes"):
         if k in npo_cov:
             cov[k] = npo_cov[k]
@@ -322,7 +342,9 @@ def roles_run(ctx):
 CHECKS = {
     "C02": {
         "lean_modules": ["P3R.Props.C02", "P3R.Props.C02Run", "P3R.Props.C02Denote", "P3R.Props.C02Complete", "P3R.Props.C02Shape", "P3R.Lemmas.BuilderSound",
-                         "P3R.Props.C02LowerTotal", "P3R.Props.C02BuilderOk", "P3R.Witness.C02LowerTotal"],
+                         "P3R.Props.C02LowerTotal", "P3R.Props.C02BuilderOk", "P3R.Witness.C02LowerTotal",
+                         "P3R.Props.C02ShapeMono", "P3R.Props.C02ShapeLower", "P3R.Props.C02ShapeTotal",
+                         "P3R.Witness.C02ShapeTotal"],
         "theorems": ["P3R.C02.dedup_rewrite_terminates", "P3R.C02.setW_get", "P3R.C02.setW_mono",
                      "P3R.C02.execAlu_sound",
                      # whole-run soundness: run = ok => every Const/ALU relation holds on the returned witness
@@ -357,7 +379,20 @@ CHECKS = {
                      # necessity of `connectsOk` + non-vacuity
                      "P3R.Witness.C02LowerTotal.connect_out_of_range_fails", "P3R.Witness.C02LowerTotal.connect_two_calls_fails",
                      "P3R.Witness.C02LowerTotal.connect_call_with_value_ok", "P3R.Witness.C02LowerTotal.reachable_example",
-                     "P3R.Witness.C02LowerTotal.lower_example_ok", "P3R.Witness.C02LowerTotal.ok_example_decide"],
+                     "P3R.Witness.C02LowerTotal.lower_example_ok", "P3R.Witness.C02LowerTotal.ok_example_decide",
+                     # second clause, lowering side TOTAL: the shape run of the lowered op list succeeds from "all public and
+                     # private rows set" and sets every slot, for every builder state with Ok / privOk / pubOk / primOk
+                     # (simulation algebra of the shape run; RunInv threaded through the four passes of `lower`)
+                     "P3R.C02S.sim_step", "P3R.C02S.sim_run", "P3R.C02S.run_mono", "P3R.C02S.run_sub",
+                     "P3R.C02S.alloc_run", "P3R.C02S.RunInv.extend", "P3R.C02S.run_fConst", "P3R.C02S.run_fPub",
+                     "P3R.C02S.run_fPriv", "P3R.C02S.run_emit_alu", "P3R.C02S.prealloc_run", "P3R.C02S.run_emitNp",
+                     "P3R.C02S.emitNp_mapped", "P3R.C02S.run_emit", "P3R.C02S.emit_pub", "P3R.C02S.fPub_QP",
+                     "P3R.C02S.lower_shape_ok", "P3R.C02S.lowered_shape_ok", "P3R.C02S.compile_shape_ok_of_optKeeps",
+                     "P3R.C02.lowered_run_total", "P3R.C02.run_total_on_satisfying_inputs_of_optKeeps",
+                     "P3R.Witness.C02ShapeTotal.good_guards", "P3R.Witness.C02ShapeTotal.good_optKeeps",
+                     "P3R.Witness.C02ShapeTotal.good_compiles", "P3R.Witness.C02ShapeTotal.bad_runs",
+                     "P3R.Witness.C02ShapeTotal.tbl_needs_primOk", "P3R.Witness.C02ShapeTotal.own_reachable",
+                     "P3R.Witness.C02ShapeTotal.own_needs_primOk"],
         "run": lambda ctx: compile_run(ctx, "C02"),
         "trusted_base": ["executable prime-field instances PF p of the driver (validated against p3-field by the runs)"],
         "assumptions": ["zero divisors: no guarantee is checked when some divisor evaluates to 0 (as the property states)"],
@@ -366,7 +401,8 @@ CHECKS = {
         "lean_modules": ["P3R.Props.C09", "P3R.Model.DefUse", "P3R.Props.C09Total", "P3R.Witness.C09Total",
                          "P3R.Props.C09Compile", "P3R.Witness.C09Compile",
                          "P3R.Props.C09Opt", "P3R.Witness.C09Opt",
-                         "P3R.Props.C09Fuse", "P3R.Witness.C09Fuse"],
+                         "P3R.Props.C09Fuse", "P3R.Witness.C09Fuse",
+                         "P3R.Props.C09Reach", "P3R.Witness.C09Reach"],
         "lean_exes": ["p3r_driver_c09n"],
         "theorems": ["P3R.C09.one_creator", "P3R.C09.mult_eq_reads", "P3R.C09.created_iff_defined",
                      "P3R.C09.net_zero_iff", "P3R.C09.bus_balanced",
@@ -408,7 +444,28 @@ CHECKS = {
                      "P3R.C09F.compile_defuse", "P3R.C09F.compiled_bus_balanced",
                      "P3R.C09F.filterValid_fix", "P3R.C09F.filterValid_addend_before_mul",
                      "P3R.Witness.C09Fuse.good_certs", "P3R.Witness.C09Fuse.bwd_muladd_breaks",
-                     "P3R.Witness.C09Fuse.fwd_list_certs", "P3R.Witness.C09Fuse.late_addend_not_fused"],
+                     "P3R.Witness.C09Fuse.fwd_list_certs", "P3R.Witness.C09Fuse.late_addend_not_fused",
+                     # builder side (Props/C09Reach.lean): the three builder-side guards hold for every program built through the
+                     # builder API (ReachablePrim = C02T.Reachable without raw pushNp; ReachableCov = with raw pushNp under the
+                     # pending-set discipline): compiled_bus_balanced_reachable has no hypothesis other than reachability
+                     "P3R.C09R.ofConnects_push", "P3R.C09R.flagsFrom_push", "P3R.C09R.SC_push", "P3R.C09R.SC_connect_mono",
+                     "P3R.C09R.SC_connect_joined", "P3R.C09R.creatorFor_iff", "P3R.C09R.guards_of_HG", "P3R.C09R.HG_of_guards",
+                     "P3R.C09R.pos_ext", "P3R.C09R.pos_mem", "P3R.C09R.InvU.push", "P3R.C09R.InvU.connect",
+                     "P3R.C09R.defineConst_inv", "P3R.C09R.allocPublic_inv", "P3R.C09R.allocPrivate_inv", "P3R.C09R.add_inv",
+                     "P3R.C09R.sub_inv", "P3R.C09R.mul_inv", "P3R.C09R.div_inv", "P3R.C09R.horner_inv", "P3R.C09R.boolCheck_inv",
+                     "P3R.C09R.mulAdd_inv", "P3R.C09R.assertBool_inv", "P3R.C09R.select_inv", "P3R.C09R.mulMany_inv",
+                     "P3R.C09R.innerProduct_inv", "P3R.C09R.expPow2_inv", "P3R.C09R.pushNp_inv", "P3R.C09R.reconLoop_inv",
+                     "P3R.C09R.reconstructBits_inv", "P3R.C09R.decomposeToBits_inv", "P3R.C09R.init_inv",
+                     "P3R.C09R.ReachablePrim.reachable", "P3R.C09R.ReachablePrim.inv", "P3R.C09R.ReachablePrim.guarded",
+                     "P3R.C09R.ReachablePrim.privOk", "P3R.C09R.ReachableCov.reachable", "P3R.C09R.ReachableCov.inv",
+                     "P3R.C09R.ReachableCov.guarded", "P3R.C09R.ReachablePrim.cov", "P3R.C09R.properId_eq",
+                     "P3R.C09R.ReachablePrim.hintOnly", "P3R.C09R.ReachablePrim.noTableOutputsUsed",
+                     "P3R.C09R.compiled_bus_balanced_reachable", "P3R.C09R.compile_defuse_reachable",
+                     "P3R.C09R.compiled_bus_balanced_cov", "P3R.C09R.not_cov_of_unguarded",
+                     "P3R.Witness.C09Reach.dec_shape", "P3R.Witness.C09Reach.dec_reachable", "P3R.Witness.C09Reach.dec_balanced",
+                     "P3R.Witness.C09Reach.dec2_reachable", "P3R.Witness.C09Reach.good_cov", "P3R.Witness.C09Reach.pend_cov",
+                     "P3R.Witness.C09Reach.pend_balanced", "P3R.Witness.C09Reach.bad_not_cov", "P3R.Witness.C09Reach.bad_not_prim",
+                     "P3R.Witness.C09Reach.tbl_not_cov", "P3R.Witness.C09Reach.tbl_not_prim", "P3R.Witness.C09Reach.hnt_not_cov"],
         "run": roles_run,
         "trusted_base": ["non-primitive rows: the theorems cover the role scan of generate_preprocessed_columns for ANY per-plug-in request function; "
                          "the concrete request functions (posRow / recRow / sumExposed: Poseidon2 sponge + arity-2/arity-4 Merkle rows, recompose with / without "
